@@ -73,6 +73,7 @@ def _work(payload):
     fails = []
     obs = []
     seen_states = set()
+    hist = core.History(to_case=lambda r: dict(case_json(*r), kind="case"))
     for spec, (conns, fmts) in zip(specs, conns_fmts):
         for n, gens, trace, idx in expand_spec(spec):
             st = M.canon(gens, n)
@@ -96,8 +97,11 @@ def _work(payload):
                     if msgs is None:          # format cannot express this case
                         counters["cases"] -= 1
                         continue
-                    for m in msgs:
-                        fails.append((m, case_json(n, conn, gens, fmt, trace)))
+                    if msgs:
+                        cj = hist.attach(case_json(n, conn, gens, fmt, trace))
+                        for m in msgs:
+                            fails.append((m, cj))
+                    hist.add((n, conn, gens, fmt, trace))
                     if ob is not None:
                         obs.append(ob)
     return counters, fails, obs
